@@ -129,6 +129,28 @@ def sweep_use(tier, seed):
                 break
         if len(fails) >= 8:
             break
+    # one base wrapper specialised several times: each derived wrapper injects its own task only, the base is left alone
+    from valjean.cosette.use import Use
+    for kw in (None, 'extra'):
+        n += 1
+        _fresh_use()
+        base = _mk_base_tasks()
+
+        def fn(*a, **k):
+            return ('fn', a, tuple(sorted(k.items())))
+        root = Use.from_func(func=fn, task=base[0], key='result')
+        d1 = Use.from_func(func=root, task=base[1], key='a', kwarg=kw)
+        d2 = Use.from_func(func=root, task=base[1], key='result', kwarg=kw)
+        inj = lambda u: ([(t.name, k) for t, k in u.inj_args], {k2: (t.name, k) for k2, (t, k) in u.inj_kwargs.items()})     # noqa
+        probs = []
+        if inj(root) != ([('t1', 'result')], {}):
+            probs.append(f'decorating a wrapper modified it: {inj(root)}')
+        w1 = ([('t1', 'result'), ('t2', 'a')], {}) if kw is None else ([('t1', 'result')], {'extra': ('t2', 'a')})
+        w2 = ([('t1', 'result'), ('t2', 'result')], {}) if kw is None else ([('t1', 'result')], {'extra': ('t2', 'result')})
+        if inj(d1) != w1 or inj(d2) != w2:
+            probs.append(f'derived wrappers inject {inj(d1)} and {inj(d2)}, expected {w1} and {w2}')
+        if probs:
+            fails.append({'input': {'shared_base_wrapper': True, 'kwarg': kw}, 'observed': probs, 'expected': 'each wrapper injects what it was asked for'})
     return {'name': 'use-requests-native', 'evaluations': n, 'distinct': n, 'failures': fails[:8], 'exhaustive': tier != 'quick',
             'bound': f'pairs of Use.from_func requests over 5 functions (two with the same __name__, two lambdas) x 2 injected tasks x keys {{result, a}} x '
                      f'hard/soft x positional/keyword ({len(reqs)} requests); every identical pair, {"1500 sampled" if tier == "quick" else "all"} different pairs; '
@@ -252,6 +274,28 @@ def collect_cases(tier, seed):
                               'observed': f'collected {[t.name for t in gl]}', 'expected': f'each of {sorted(names[k] for k in want)} exactly once'})
         if len(fails) >= 6:
             break
+    # collect_tasks: a name clash among TRANSITIVE dependencies is rejected, too
+    import tempfile
+    import os
+    for depth in (0, 1):
+        n += 1
+        d = tempfile.mkdtemp(prefix='c15job_', dir='/var/tmp')
+        jf = os.path.join(d, 'job.py')
+        with open(jf, 'w') as f:
+            f.write('from valjean.cosette.task import Task, TaskStatus\n'
+                    'class T(Task):\n    def do(self, env, config):\n        return {}, TaskStatus.DONE\n'
+                    'def job():\n    a1, a2 = T("same"), T("same")\n'
+                    + ('    return [a1, a2]\n' if depth == 0 else '    return [T("top1", deps=[a1]), T("top2", soft_deps=[a2])]\n'))
+        try:
+            common.collect_tasks(jf, [], {})
+            fails.append({'input': {'duplicate_names_at_depth': depth}, 'observed': 'collect_tasks accepted two different tasks with one name', 'expected': 'ValueError'})
+        except ValueError:
+            pass
+        except Exception as e:      # noqa
+            fails.append({'input': {'duplicate_names_at_depth': depth}, 'observed': f'raised {e!r}', 'expected': 'ValueError'})
+        finally:
+            import shutil
+            shutil.rmtree(d, ignore_errors=True)
     # name clashes
     for dup in (True, False):
         n += 1
